@@ -23,7 +23,7 @@ RULE = ("case maps: all lower, per-record random (each record wholly lower or up
         " Second session: complete assemblies of the kits' own vector/module classes (C11's generator) and characterize() of registry plasmids through their family base under the case maps.")
 ASSUMPTIONS = ["sequences over ACGT/acgt", "exceptions compared by class, upper-cased start_overhang / set of blamed module ids, and their rendered message up to letter case"]
 FLOORS = {"c18_assembly_comparisons": 1000, "c18_typing_comparisons": 3000, "c18_error_outcomes_compared": 200, "c18_product_outcomes_compared": 300, "c18_registry_plasmids_typed": 300, "c18_kit_class_assemblies": 30, "c18_characterize_comparisons": 100}
-MUST_REACH = ["AssemblyManager._generate_modules_map", "DNARegex._transcribe"]
+MUST_REACH = ["AbstractVector.assemble", "AssemblyManager._generate_modules_map", "DNARegex._transcribe"]
 BUDGET_S = {"quick": 900, "thorough": 7200}
 NEEDS_REGISTRIES = True
 MAPS = ["lower", "per-record", "per-letter", "per-letter", "mixed-upper-lower-halves"]
